@@ -1,5 +1,6 @@
 """C10 - expressions group by standard precedence; &H/&O literals keep exact value and type (DESIGN 4/C10)."""
 from vklib import Builder
+import slicer
 
 OPS = """
     pub fn vk_operator(k: u8) -> Operator {
@@ -206,11 +207,52 @@ def spec(tier, seed):
         }
         """, unwind=2, exhaustive=True, cost=3, bounds="the empty digit string", functions=["rusty_bit_vec::BitVec::convert_to_int_or_long_expr"])
 
+    # decimal literals: the typing decision of process_dec for every value the digit string can denote.  The body of process_dec is
+    # sliced from the current source (DESIGN 1.4) and compiled against a token whose text parses to an arbitrary u32 or fails to
+    # parse: Token::to_string and str::parse (core::fmt; no verdict beyond 4 digits in the first session) stay outside.
+    notes = []
+    try:
+        src = slicer.read("rusty_parser/src/expr/integer_or_long_literal.rs")
+        sig, body = slicer.function(src, "process_dec")
+        if "token: Token" not in " ".join(sig.split()):
+            raise slicer.SliceError("unexpected signature of process_dec")
+        b.helper(lit, """
+    /// stands for the decimal token: its text parses to `value`, or does not fit a u32
+    pub struct VkToken { pub value: Option<u32> }
+    pub struct VkText { pub value: Option<u32> }
+    impl VkToken { pub fn to_string(&self) -> VkText { VkText { value: self.value } } }
+    impl VkText {
+        pub fn parse<T>(&self) -> Result<u32, std::num::ParseIntError> {
+            match self.value { Some(v) => Ok(v), None => "99999999999".parse::<u32>() }
+        }
+    }
+    // ---- text of process_dec, unchanged, on the stand-in token ----
+    pub fn vk_process_dec(token: VkToken) -> Result<Expression, ParserError> {%s}
+""" % body)
+        b.add(lit, "vk_c10_dec_literal_typing", """
+        let v: u32 = kani::any();
+        let r = vk_process_dec(VkToken { value: Some(v) });
+        // the narrowest of INTEGER, LONG, DOUBLE that holds the value
+        match &r {
+            Ok(Expression::IntegerLiteral(i)) => assert!(v <= 32767 && *i == v as i32),
+            Ok(Expression::LongLiteral(l)) => assert!(v > 32767 && v <= 2147483647 && *l == v as i64),
+            Ok(Expression::DoubleLiteral(d)) => assert!(v > 2147483647 && *d == v as f64),
+            _ => assert!(false),
+        }
+        std::mem::forget(r);
+        """, unwind=2, exhaustive=True, cost=30, bounds="every value a decimal digit string can denote within u32 (0..4294967295)",
+              functions=["rusty_parser::expr::integer_or_long_literal::process_dec (body, sliced)"],
+              basic="PRINT 2147483647 + 1   ' the literal 2147483647 is a LONG: Overflow")
+    except slicer.SliceError as e:
+        notes.append("process_dec could not be sliced from the current tree (%s): vk_c10_dec_literal_typing missing from this run" % e)
+
     return b.build(
         tier,
+        notes=notes,
+        stubs=["the decimal token of process_dec -> a stand-in whose text parses to an arbitrary u32 (Token::to_string and str::parse are not executed)"],
         bounds="operator pairs: all 169 + 2 x 13 (exhaustive); hex literals of 1..9 digits, octal 1..12 (both boundaries: 16 and 32 significant bits), "
                "one instance per digit count, digits symbolic",
         outside="the rotation driver (binary_expr / flip_binary / apply_unary_priority_order recursion over deeper trees) and literal folding "
-                "after unary minus; decimal and fraction literals (Token::to_string, str::parse)",
+                "after unary minus; the digit scanning of decimal literals (Token::to_string, str::parse), decimal literals beyond u32 and fraction literals",
         assumptions=["the parser asks should_flip_binary exactly on trees of the shape x l (y r z) (binary_expr)"],
     )
